@@ -279,13 +279,22 @@ def setdict_status_rule(ck, P, R="ATOM/setdict-status"):
         return
     ck.use_fn(f)
     n = 0
+    sites = []
     for b in sorted(f.live):
         t = f.blocks[b]["t"]
-        if t["k"] != "switch" or b in f.debug_branches:
-            continue
-        d = f.operand_expr(t["discr"])
-        if not mir.mentions_field(d, "status"):
-            continue
+        if t["k"] == "switch" and b not in f.debug_branches and mir.mentions_field(f.operand_expr(t["discr"]), "status"):
+            sites.append((b, t.get("line")))
+    # the comparison may also be computed as a value (`let header_written = wrap == 1 && status != Init;`)
+    for bi, si, lhs, rv, st in f.assignments():
+        if rv.get("k") == "bin" and rv.get("op") in ("Eq", "Ne") or rv.get("k") == "discr":
+            e = f.rvalue_expr(rv)
+            if mir.mentions_field(e, "status") and (bi, st.get("line")) not in sites and not any(bi == b_ for b_, _ in sites):
+                sites.append((bi, st.get("line")))
+    for c in f.live_calls(r"cmp::PartialEq::(eq|ne)$"):
+        if any(mir.mentions_field(a, "status") for a in f.call_args(c)) and not any(c.bb == b_ for b_, _ in sites):
+            sites.append((c.bb, c.line))
+    for b, line_ in sites:
+        t = {"line": line_}
         n += 1
         ok = False
         for a in f.dominating_atoms(b):
